@@ -478,3 +478,17 @@ def run(ctx):
              "action or commit phase in one abstract state; quick: 220 random paths of the cover), TLC-simulated "
              "behaviours with 6 revisions, and for %d pre-histories a bound commit with each transport operation of "
              "Commit._update_branches failed once, followed by update + commit; distinct = action sequence" % len(sweeps))
+
+
+def replay(ctx, rep):
+    env.init()
+    install_phase_marker()
+    row = rep["replay"]
+    acts = [dict(a, plan=(["phase", a["fault"], 1] if a.get("fault") else None)) for a in row["c"]["acts"]]
+    done, obs, _ = execute(row["c"]["cs"], acts, os.path.join(ctx.workdir, "replay"))
+    print(json.dumps({"acts": done, "observed_now": obs, "recorded": row["impl"]}, indent=1))
+    rows = [{"c": {"cs": row["c"]["cs"], "acts": [{k: a[k] for k in ("op", "c", "src", "fault")} for a in done]}, "impl": obs}]
+    for _, failed, drift in table.judge(ctx, "BoundBranchTrace", rows):
+        for f in failed:
+            law, op = f.split("@")
+            ctx.violation("%s:%s" % (law, op), "replayed: law %s fails at a %s step" % (law, op), rows[0])
